@@ -245,6 +245,10 @@ def make_cert(subject_cn, subject_pub, issuer_cn, issuer_priv, window="valid", s
              .public_key(subject_pub).serial_number(serial)
              .not_valid_before(t0).not_valid_after(t1))
         return b.sign(issuer_priv, hashes.SHA256())
+    if window == "no-expiry":
+        # RFC 5280 4.1.2.5: 'no well-defined expiration date'
+        window = ["abs", int(now().timestamp()) - 86400, 253402300799]
+        return make_cert(subject_cn, subject_pub, issuer_cn, issuer_priv, window, serial)
     nb, na = WINDOWS[window]
     b = (x509.CertificateBuilder()
          .subject_name(x509.Name([x509.NameAttribute(NameOID.COMMON_NAME, subject_cn)]))
